@@ -12,41 +12,49 @@ PROPS_FILE = "theories/Props/C12.v"
 EXTRACT = ("theories/Extract/XC12.v", "c12", ["entry_agree_in", "entry_agree_out"])
 PYX = {"_filter.pyx": ["masked_convolution"]}
 CASE_TIMEOUT = 60
-RULE = ("every listed function x every optional-parameter variant it offers x image shapes (1x1 .. 14x14, skewed to tiny) x "
-        "mask classes (random 0.5/0.8/0.95, thin lines, border-touching frame, single-pixel holes, all-False, all-True, "
-        "blob) x image classes (dyadic with ties, random float, constant, int 0..255 for median/convex hull; boolean for the "
-        "binary family); each case = one base run + runs with the masked-out pixels replaced by {0, 1, +1e3, -1e3, noise} "
-        "(binary: False/True/noise); non-trivial = the mask has both in and out pixels, some replacement really changes a "
+RULE = ("every listed function x every optional-parameter variant it offers x image shapes (1x1 .. 14x14 skewed to tiny, plus "
+        "strips 70-600 x 1-5) x mask classes (random, thin lines, frame, single-pixel holes, masked-out runs ON the border, "
+        "one-pixel spokes reaching the border, all-False, all-True, blob) x image dtype (float64/32, int64/32/16, uint8/16 "
+        "incl. extremes, bool) x layout of image and of mask (C, Fortran, strided view, read-only) x mask dtype "
+        "(bool/uint8/int64 where the function converts it); each case = base run + runs with the masked-out pixels := "
+        "{0, 1, +big, -big, noise, +inf, NaN} (binary: False/True/noise) + the base call repeated at the end; non-trivial = the mask has both in and out pixels, some replacement really changes a "
         "masked-out pixel and the base output is not constant inside the mask; distinct by hash of the case")
 TRUSTED = [
-    "translator tools/gen_maskflow_c12.py (Python ast -> mask-dataflow term, fail-closed) and the hand-written terms of "
-    "tools/maskflow_hand_c12.py pinned to normalised-AST hashes (PINS in harness/props/c12.py)",
+    "translator tools/gen_maskflow_c12.py (symbolic evaluation of the Python AST -> mask-dataflow term, fail-closed; 36 of "
+    "the 40 functions) and the 4 hand-written terms of tools/maskflow_hand_c12.py (openlines, circular_hough, "
+    "regional_maximum, convex_hull_transform) pinned to normalised-AST hashes (tools/maskflow_pins_c12.json)",
     "library-symbol locality table of gen_maskflow_c12.py (the interface the theorems quantify over): POINTWISE NumPy "
     "ufuncs/astype/copy; convolve with a literal kxk kernel local with radius k//2 (reflect border reads stay within "
-    "that radius); binary_erosion(m, 3x3, border_value=0) = Erode 1; GLOBAL = pure functions of their array arguments "
-    "(table_lookup, scind.grey_erosion/dilation, gaussian_filter, label, distance_transform_edt, rank_order, lstsq, "
-    "index_lookup, skeletonize_loop, a user-supplied smoothing function); NumPy identities x[m] = gather(where(m,x,0),m), "
-    "(x with x[s]:=y)[s] = y, x[~m]=c / x[m]=y[m] as where()",
+    "that radius); binary_erosion(m, generate_binary_structure(2,2), border_value=0) = Erode 1; GLOBAL = pure functions "
+    "of their array arguments (table_lookup, scind.grey_erosion/dilation, gaussian_filter, label, "
+    "distance_transform_edt, rank_order, lstsq, index_lookup, helper functions of the three modules, a user-supplied "
+    "smoothing function); in-place kernels skeletonize_loop / _filter.median_filter write only their declared argument; "
+    "extract_from_image_lookup(img, i, j) = img at the indexed pixels else 0; a loop is a pure function of the entry "
+    "values of the variables it reads",
+    "NumPy identities: x[m] = gather(where(m,x,0), m) for boolean m; (x with x[s]:=y)[s] = y; x[~m]=c / x[m]=y[m] as "
+    "where(); x[s1][m[s2]] with literal slices enumerates x at p + start(s1) - start(s2) over the true pixels p of m in "
+    "m's order whenever the code combines it elementwise with a vector gathered by m (NumPy raises otherwise); dtype "
+    "conversions of a mask keep its truthiness",
     "modelled, not verified: arrays as total functions on Z*Z; determinism of NumPy/SciPy (two runs on equal data give "
-    "equal bits); openlines' angle loop written out for three angles; regional_maximum's term reads neighbours within "
-    "radius 1 (default 3x3 structure; larger structures are covered by the two-run oracle only)",
+    "equal bits); openlines' angle loop written out for three angles; regional_maximum's term covers full "
+    "(2r+1)x(2r+1) structures of every r (sparse structures are covered by the two-run oracle only)",
 ]
 ASSUMPTIONS = ["image and mask have the same 2-d shape; mask is boolean; the smoothing function handed to "
                "smooth_with_function_and_mask is pure"]
 EXHAUSTIVE = {"quick": False, "thorough": False}
 
 # ------------------------------------------------------------------------------------------------ static side
-AUTO = ["grey_erosion", "grey_dilation", "opening", "closing", "white_tophat", "black_tophat",
-        "sobel", "hsobel", "vsobel", "prewitt", "hprewitt", "vprewitt",
-        "laplacian_of_gaussian", "variance_transform", "smooth_with_function_and_mask",
-        "bridge", "clean", "diag", "endpoints", "branchpoints", "fill", "fill4", "hbreak", "vbreak", "majority",
-        "remove", "thicken"]
+# hand-written, pinned to the normalised AST: loops over shifted slices (openlines, circular_hough, regional_maximum);
+# convex_hull_transform translates automatically but its term, written as a tree, has 1.6e9 nodes (the language has
+# no sharing construct)
+HAND_TERMS = ["openlines", "circular_hough", "regional_maximum", "convex_hull_transform"]
 BINARY = ["bridge", "clean", "diag", "endpoints", "branchpoints", "fill", "fill4", "hbreak", "vbreak", "majority",
           "remove", "spur", "thicken", "thin", "skeletonize"]
 LISTED = ["median_filter", "grey_erosion", "grey_dilation", "opening", "closing", "white_tophat", "black_tophat",
           "openlines", "sobel", "hsobel", "vsobel", "prewitt", "hprewitt", "vprewitt", "roberts", "canny",
           "laplacian_of_gaussian", "variance_transform", "circular_average_filter", "smooth_with_function_and_mask",
           "stretch", "fit_polynomial", "circular_hough", "convex_hull_transform", "regional_maximum"] + BINARY
+AUTO = [n for n in LISTED if n not in HAND_TERMS]
 # normalised-AST pins of the functions that have hand-written terms (and of the code those terms rely on)
 PINS = {}
 try:
@@ -57,7 +65,9 @@ except Exception:      # a missing pin file makes every hand term void (translat
     PINS = {}
 
 
-UNTRANSLATABLE = ("Glob", "UNTRANSLATABLE", (("Img",),))      # a term the checker rejects
+def _untranslatable():
+    import gen_maskflow_c12 as G
+    return G.Glob("UNTRANSLATABLE", G.Img)                     # a term the checker rejects
 
 
 def build_terms(sources):
@@ -68,23 +78,22 @@ def build_terms(sources):
     import maskflow_hand_c12 as Hd
     M = G.Module(sources)
     terms, rejected, extra, errors = {}, {}, {}, []
+    param = {}
 
     def attempt(name, thunk, store):
         try:
             store[name] = G.lower(thunk())
         except (G.Unsupported, KeyError, IndexError, TypeError, ValueError, AttributeError) as e:
-            store[name] = UNTRANSLATABLE
+            store[name] = _untranslatable()
             errors.append("%s: %s: %s" % (name, type(e).__name__, str(e)[:200]))
 
     def pins_ok(name):
         for n in [name] + Hd.ALSO_PINNED.get(name, []):
             if n not in M.funcs:
                 raise G.Unsupported("function %s not found in the source" % n)
-            h = G.ast_hash(M.funcs[n])
+            h = G.norm_hash(M.funcs[n])
             if PINS.get(n) != h:
                 raise G.Unsupported("hand-written term of %s is void: %s has hash %s, pinned %s" % (name, n, h, PINS.get(n)))
-        if name == "canny":
-            Hd.check_canny_reads(M)
 
     for name in AUTO:
         attempt(name, lambda name=name: G.translate(
@@ -95,15 +104,20 @@ def build_terms(sources):
         attempt(name, lambda builder=builder: builder(M), rejected)
     for name, (fn, builder) in Hd.EXTRA.items():
         attempt(name, lambda fn=fn, builder=builder: (pins_ok(fn), builder(M))[1], extra)
+    for name, (fn, builder) in Hd.PARAM.items():
+        attempt(name, lambda fn=fn, builder=builder: (pins_ok(fn), builder(M))[1], param)
     for n in LISTED:
         if n not in terms:
-            terms[n] = UNTRANSLATABLE
+            terms[n] = _untranslatable()
             errors.append("%s: no term" % n)
+    extra = dict(extra)
+    extra["__param__"] = param
     return terms, rejected, extra, errors
 
 
 def emit(terms, rejected, extra=None):
-    extra = extra or {}
+    extra = dict(extra or {})
+    param = extra.pop("__param__", {})
     import gen_maskflow_c12 as G
     em = G.Emitter()
     out = ["(* GENERATED on every run by harness/props/c12.py (tools/gen_maskflow_c12.py) from the STAGED source of",
@@ -130,7 +144,16 @@ def emit(terms, rejected, extra=None):
     out.append("(* constants (index: name) *)")
     out.append("(* " + "; ".join("%d: %s" % (i, n.replace("*)", "* )")) for n, i in em.consts.items()) + " *)")
     out.append("")
+    out.append("(* shared sub-terms (text sharing only) *)")
+    out.extend(em.defs)
+    out.append("")
     out.extend(body)
+    import maskflow_hand_c12 as Hd
+    for name, t in param.items():
+        out.append("(* %s: the term of %s with a symbolic structure radius r *)" % (name, Hd.PARAM[name][0]))
+        out.append("Definition prog_%s (r : nat) : expr :=\n  %s." % (name, em.coq_param(t, Hd.RSYM)))
+        out.append("Lemma %s_ok : forall r, accepts (prog_%s r) = true.\nProof. intros r. unfold accepts, prog_%s. cbn. "
+                   "rewrite ?PeanoNat.Nat.leb_refl. cbn. reflexivity. Qed.\n" % (name, name, name))
     out.append("Definition listed_progs : list expr :=\n  [%s]." % "; ".join("prog_" + n for n in LISTED))
     out.append("Definition binary_progs : list expr :=\n  [%s]." % "; ".join("prog_" + n for n in BINARY))
     out.append("Lemma listed_accepted : forallb accepts listed_progs = true.\nProof. vm_compute. reflexivity. Qed.")
@@ -262,34 +285,57 @@ def _shape(rng):
     u = rng.rand()
     if u < 0.10:
         return [(1, 1), (1, 4), (5, 1), (2, 2), (2, 3), (3, 3)][rng.randint(6)]
-    if u < 0.30:
+    if u < 0.28:
         return int(rng.randint(3, 7)), int(rng.randint(3, 7))
+    if u < 0.31:                                       # long strips: block / chunk / stride logic
+        n, w = int(rng.choice([70, 300, 600])), int(rng.randint(1, 6))
+        return (n, w) if rng.rand() < 0.5 else (w, n)
     return int(rng.randint(5, 15)), int(rng.randint(5, 15))
 
 
 def _mask(rng, H, W):
     u = rng.rand()
-    if u < 0.40:
+    if u < 0.30:
         m = rng.rand(H, W) < rng.choice([0.5, 0.8, 0.95]); cls = "random"
-    elif u < 0.52:                                     # thin masks: a few lines
+    elif u < 0.40:                                     # thin masks: a few lines
         m = np.zeros((H, W), bool); cls = "thin"
         for _ in range(rng.randint(1, 4)):
             if rng.rand() < 0.5:
                 m[rng.randint(H), :] = True
             else:
                 m[:, rng.randint(W)] = True
-    elif u < 0.64:                                     # frame touching every border, hollow inside
+    elif u < 0.50:                                     # frame touching every border, hollow inside
         m = np.ones((H, W), bool); cls = "frame"
         t = rng.randint(1, 3)
         if H > 2 * t and W > 2 * t:
             m[t:-t, t:-t] = rng.rand(H - 2 * t, W - 2 * t) < 0.3
-    elif u < 0.80:                                     # single-pixel holes
+    elif u < 0.62:                                     # single-pixel holes
         m = np.ones((H, W), bool); cls = "holes"
         for _ in range(rng.randint(1, 4)):
             m[rng.randint(H), rng.randint(W)] = False
-    elif u < 0.84:
-        m = np.zeros((H, W), bool); cls = "allfalse"
+    elif u < 0.74:                                     # masked-out pixels ON the image border (corners, edge runs)
+        m = np.ones((H, W), bool); cls = "border_out"
+        for _ in range(rng.randint(1, 5)):
+            side = rng.randint(4)
+            if side < 2:
+                j0 = rng.randint(W); j1 = min(W, j0 + rng.randint(1, 4))
+                m[0 if side == 0 else H - 1, j0:j1] = False
+            else:
+                i0 = rng.randint(H); i1 = min(H, i0 + rng.randint(1, 4))
+                m[i0:i1, 0 if side == 2 else W - 1] = False
+        if rng.rand() < 0.4:
+            m[[0, 0, H - 1, H - 1][rng.randint(4)], [0, W - 1, 0, W - 1][rng.randint(4)]] = False
+    elif u < 0.84:                                     # one-pixel-wide mask regions running from the interior to the border
+        m = np.zeros((H, W), bool); cls = "spokes"
+        for _ in range(rng.randint(1, 4)):
+            i, j = rng.randint(H), rng.randint(W)
+            di, dj = [(0, 1), (1, 0), (0, -1), (-1, 0), (1, 1), (1, -1), (-1, 1), (-1, -1)][rng.randint(8)]
+            while 0 <= i < H and 0 <= j < W:
+                m[i, j] = True
+                i, j = i + di, j + dj
     elif u < 0.87:
+        m = np.zeros((H, W), bool); cls = "allfalse"
+    elif u < 0.90:
         m = np.ones((H, W), bool); cls = "alltrue"
     else:                                              # blob: interior only, borders masked out
         m = np.zeros((H, W), bool); cls = "blob"
@@ -299,41 +345,81 @@ def _mask(rng, H, W):
     return m, cls
 
 
-def _image(rng, kind, H, W):
+DTYPES = {"float": ["float64"] * 5 + ["float32"] * 3 + ["int32", "uint8"],
+          "signed": ["float64", "float64", "float32"],
+          "int": ["int64", "int64", "int32", "uint8", "uint16", "int16"],
+          "bool": ["bool"] * 4 + ["uint8"]}
+LAYOUTS = ["C"] * 4 + ["F", "F", "strided", "strided", "readonly"]
+# functions that convert the mask themselves (so non-boolean masks are within their contract)
+MASK_ANY_DTYPE = {"median_filter", "circular_average_filter", "sobel", "hsobel", "vsobel", "prewitt", "hprewitt",
+                  "vprewitt", "roberts"}
+
+
+def _image(rng, kind, dtype, H, W):
+    dt = np.dtype(dtype)
     if kind == "bool":
         return (rng.rand(H, W) < rng.choice([0.3, 0.6, 0.85])).astype(int)
-    if kind == "int":
-        return rng.randint(0, rng.choice([4, 40, 256]), (H, W))
+    if dt.kind in "iu":
+        if kind == "int":
+            info = np.iinfo(dt)
+            hi = int(rng.choice([4, 40, 256, 3000]))
+            lo = -hi // 3 if (info.min < 0 and rng.rand() < 0.3) else 0
+            img = rng.randint(lo, min(hi, info.max) + 1, (H, W)).astype(np.int64)
+            if rng.rand() < 0.25:                          # extremes of the dtype
+                for _ in range(rng.randint(1, 3)):
+                    img[rng.randint(H), rng.randint(W)] = info.max if rng.rand() < 0.6 else info.min
+            return img
+        return rng.randint(0, 16, (H, W))                 # float-valued operation fed an integer image
     if kind == "signed":
         return (rng.randint(-8, 9, (H, W)) / 8.0)
     u = rng.rand()
     if u < 0.45:
-        return rng.randint(0, 16, (H, W)) / 16.0
-    if u < 0.85:
-        return rng.rand(H, W)
-    if u < 0.92:
-        return np.full((H, W), float(rng.randint(0, 3)) / 2)
-    i, j = np.mgrid[0:H, 0:W]
-    return ((i * 3 + j * 5) % 7) / 8.0
+        img = rng.randint(0, 16, (H, W)) / 16.0
+    elif u < 0.85:
+        img = rng.rand(H, W)
+    elif u < 0.92:
+        img = np.full((H, W), float(rng.randint(0, 3)) / 2)
+    else:
+        i, j = np.mgrid[0:H, 0:W]
+        img = ((i * 3 + j * 5) % 7) / 8.0
+    return img.astype(dt).astype(np.float64)              # exactly representable in the case's dtype
 
 
 def make_case(rng, fn, vi):
     tag, kind, _ = VARIANTS[fn][vi]
     H, W = _shape(rng)
     m, cls = _mask(rng, H, W)
-    img = _image(rng, kind, H, W)
+    dtype = str(rng.choice(DTYPES[kind]))
+    dt = np.dtype(dtype)
+    img = _image(rng, kind, dtype, H, W)
     n_out = int((~m).sum())
     alts = []
-    for a in (ALT_BOOL if kind == "bool" else ALT_FLOAT):
+    if kind == "bool":
+        names = ALT_BOOL
+    elif dt.kind == "f":
+        names = ALT_FLOAT + ["inf", "nan"]
+    else:
+        names = ALT_FLOAT
+    for a in names:
         if a == "noise":
-            v = (rng.rand(n_out) < 0.5).astype(int).tolist() if kind == "bool" else (
-                rng.randint(0, 300, n_out).tolist() if kind == "int" else rng.rand(n_out).tolist())
+            if kind == "bool":
+                v = (rng.rand(n_out) < 0.5).astype(int).tolist()
+            elif dt.kind in "iu":
+                v = rng.randint(0, min(300, np.iinfo(dt).max) + 1, n_out).tolist()
+            else:
+                v = rng.rand(n_out).astype(dt).astype(np.float64).tolist()
         else:
-            c = {"zero": 0, "one": 1, "big": 1000, "negbig": -1000, "false": 0, "true": 1}[a]
+            if dt.kind in "iu" and kind != "bool":
+                c = {"zero": 0, "one": 1, "big": int(np.iinfo(dt).max), "negbig": int(np.iinfo(dt).min)}[a]
+            else:
+                c = {"zero": 0, "one": 1, "big": 1000, "negbig": -1000, "false": 0, "true": 1,
+                     "inf": float("inf"), "nan": float("nan")}[a]
             v = [c] * n_out
         alts.append({"kind": a, "vals": v})
     return {"fn": fn, "variant": vi, "tag": tag, "kind": kind, "mask_class": cls, "img": img.tolist(),
-            "mask": m.astype(int).tolist(), "alts": alts}
+            "mask": m.astype(int).tolist(), "alts": alts, "dtype": dtype,
+            "mask_dtype": str(rng.choice(["bool", "bool", "uint8", "int64"])) if fn in MASK_ANY_DTYPE else "bool",
+            "layout": str(rng.choice(LAYOUTS)), "mask_layout": str(rng.choice(LAYOUTS))}
 
 
 def _corpus():
@@ -353,25 +439,46 @@ def generate(ctx):
     cases = _corpus()
     for c in cases:
         ctx.count("corpus")
-    per = ctx.n(30, 400)
+    per = ctx.n(60, 400)
     for fn in LISTED:
         nv = len(VARIANTS[fn])
         for k in range(per):
             c = make_case(ctx.rng, fn, k % nv)
             cases.append(c)
             ctx.count("mask:" + c["mask_class"])
-            ctx.count("kind:" + c["kind"])
-            ctx.count("shape:" + ("tiny" if min(len(c["img"]), len(c["img"][0])) <= 3 else "small"))
+            ctx.count("dtype:" + c["dtype"])
+            ctx.count("layout:" + c["layout"] + "/" + c["mask_layout"])
+            if c["mask_dtype"] != "bool":
+                ctx.count("mask_dtype:" + c["mask_dtype"])
+            hh, ww = len(c["img"]), len(c["img"][0])
+            ctx.count("shape:" + ("strip" if max(hh, ww) >= 70 else "tiny" if min(hh, ww) <= 3 else "small"))
     return cases
 
 
+def _layout(a, layout):
+    """the same values in the requested memory layout (fresh array every time)"""
+    if layout == "F":
+        return np.asfortranarray(a)
+    if layout == "strided":
+        big = np.zeros((a.shape[0] * 2 + 1, a.shape[1] * 3 + 2), a.dtype)
+        v = big[1::2, 2::3][: a.shape[0], : a.shape[1]]
+        v[...] = a
+        return v
+    a = np.array(a, order="C")
+    if layout == "readonly":
+        a.setflags(write=False)
+    return a
+
+
 def _arr(case, img):
+    """image values as an array of the case's dtype (C order; _layout is applied per run)"""
     kind = case["kind"]
-    if kind == "bool":
+    dtype = case.get("dtype") or {"bool": "bool", "int": "int64"}.get(kind, "float64")
+    if dtype == "bool":
         return np.array(img, dtype=int).astype(bool)
-    if kind == "int":
-        return np.array(img, dtype=int)
-    return np.array(img, dtype=float)
+    if np.dtype(dtype).kind in "iu":
+        return np.array(img, dtype=np.int64).astype(dtype)
+    return np.array(img, dtype=np.float64).astype(dtype)
 
 
 def canon(x):
@@ -395,25 +502,37 @@ def _mods():
     return _MODS
 
 
-def _run(f, img, mask):
+def _run(f, case, img, mask):
     try:
-        return {"out": canon(f(_mods(), img.copy(), mask.copy()))}
+        a = _layout(img, case.get("layout", "C"))
+        k = _layout(mask.astype(case.get("mask_dtype", "bool")), case.get("mask_layout", "C"))
+        return {"out": canon(f(_mods(), a, k))}
     except Exception as e:                                     # noqa
         return {"exc": type(e).__name__, "msg": str(e)[:200]}
 
 
+def _variant(case):
+    """variants are addressed by tag (the index only breaks ties), so stored cases survive added variants"""
+    vs = VARIANTS[case["fn"]]
+    for v in vs:
+        if v[0] == case.get("tag"):
+            return v
+    return vs[case["variant"]]
+
+
 def impl(case):
-    f = VARIANTS[case["fn"]][case["variant"]][2]
+    f = _variant(case)[2]
     mask = np.array(case["mask"], dtype=int).astype(bool)
     img = _arr(case, case["img"])
-    base = _run(f, img, mask)
+    base = _run(f, case, img, mask)
     res = {"base": base, "alts": [], "inputs": []}
     for a in case["alts"]:
         img2 = img.copy()
-        img2[~mask] = np.array(a["vals"], dtype=img.dtype if case["kind"] != "bool" else int).astype(img.dtype)
-        res["alts"].append(_run(f, img2, mask))
+        img2[~mask] = np.array(a["vals"], dtype=np.float64 if img.dtype.kind == "f" else np.int64).astype(img.dtype)
+        res["alts"].append(_run(f, case, img2, mask))
         res["inputs"].append(canon(img2)[0])
     res["input0"] = canon(img)[0]
+    res["base_again"] = _run(f, case, img, mask)               # same call after the others: no state kept between calls
     return res
 
 
@@ -436,6 +555,10 @@ def check(ctx, cases, outs):
                 res[k] = "%s: base run %s but run with masked-out pixels := %s %s" % (
                     c["fn"], "raised " + base["exc"] if "exc" in base else "returned", kind,
                     "raised " + r["exc"] if "exc" in r else "returned")
+        again = o.get("base_again")
+        if again is not None and again != base and not res[k]:
+            res[k] = "%s[%s]: the same call repeated after other calls in the process returns a different result" % (
+                c["fn"], c["tag"])
         if res[k] or "exc" in base:
             continue
         for kind, r, inp in runs:
@@ -549,7 +672,7 @@ MANIFEST = {
         "EVERY interpretation of the library symbols that respects the declared locality: an accepted program is "
         "non-interfering inside the mask, a program ending in `result[~mask] = image[~mask]` returns its input outside. "
         "On every run a fail-closed translator turns the staged source of the 40 listed functions into such programs "
-        "(27 by symbolic evaluation of the Python AST, 13 hand-written and pinned to the function's AST hash) and the "
+        "(36 by symbolic evaluation of the Python AST, 4 hand-written and pinned to the function's normalised-AST hash) and the "
         "kernel re-checks that every one is accepted (and that the 15 binary operations restore). Dynamically every "
         "function and optional-parameter variant is run on (img, mask) and on images differing outside the mask; the "
         "outputs are compared bit for bit inside the mask (binary family: also outside against the input) through the "
